@@ -196,7 +196,24 @@ def recording_part(ctx):
         a, b = recordreplay.replay(ctx, behs)
         n, mism, nb = n + a, mism + b, nb + len(behs)
     ctx.add_counts(evaluations=n, traces=nb)
-    ctx.add_part('recording / space-builder machine (GVRecording) replayed on the real classes', behaviours=nb, operations=n, mismatches=mism)
+    # the invariant the bounded runs check up to Depth 5, proved for every Depth by TLAPS
+    import re
+    import shutil
+    import subprocess
+    import tempfile
+    from harness.tlc import SPEC
+    tmp = tempfile.mkdtemp(prefix='tlaps_')
+    try:
+        for f in ('GVRecording.tla', 'GVRecordingProofs.tla'):
+            shutil.copy(os.path.join(SPEC, f), tmp)
+        out = subprocess.run(['tlapm', '-I', '/opt/veriftools/tla', 'GVRecordingProofs.tla'], cwd=tmp, capture_output=True, text=True, timeout=900)
+        m = re.search(r'All (\d+) obligations? proved', out.stdout + out.stderr)
+    finally:
+        shutil.rmtree(tmp, ignore_errors=True)
+    if not m:
+        ctx.drift('TLAPS could not discharge GVRecordingProofs (BuilderShape for every depth)')
+    ctx.add_part('recording / space-builder machine (GVRecording) replayed on the real classes', behaviours=nb, operations=n, mismatches=mism,
+                 tlaps_obligations_proved=int(m.group(1)) if m else 0)
 
 
 def returns_part(ctx):
